@@ -54,13 +54,14 @@ impl<P: SingleObjectiveProblem> Component<P> for ExponentialAnnealingAcceptance 
     fn execute(&self, _problem: &P, state: &mut State<P>) -> ExecResult<()> {
         let mut populations = state.populations_mut();
 
+        // The candidate is on top of the stack, the current solution below it.
         let o_current = populations
-            .peek(0)
+            .peek(1)
             .first()
             .wrap_err("current solution is missing")?
             .objective();
         let o_candidate = populations
-            .peek(1)
+            .peek(0)
             .first()
             .wrap_err("candidate solution is missing")?
             .objective();
